@@ -22,6 +22,15 @@ func verifHome() string {
 	return "/verif"
 }
 
+// outDir is where evidence and replays are written: /verif itself, or VERIF_OUT when the same commands are
+// pointed at a scratch mutant copy (so that a sensitivity run does not overwrite the committed evidence).
+func outDir() string {
+	if h := os.Getenv("VERIF_OUT"); h != "" {
+		return h
+	}
+	return verifHome()
+}
+
 func buildDir() string {
 	if h := os.Getenv("VERIF_BUILD_DIR"); h != "" {
 		return h
@@ -142,7 +151,7 @@ func NewCtx(prop, tier string) *Ctx {
 
 // ClearReplays removes replay files of earlier runs of this property and seed.
 func (c *Ctx) ClearReplays() {
-	olds, _ := filepath.Glob(filepath.Join(verifHome(), "replays", fmt.Sprintf("*%s-seed%d-*.json", c.Prop, c.Seed)))
+	olds, _ := filepath.Glob(filepath.Join(outDir(), "replays", fmt.Sprintf("*%s-seed%d-*.json", c.Prop, c.Seed)))
 	for _, o := range olds {
 		os.Remove(o)
 	}
@@ -240,7 +249,7 @@ func (c *Ctx) Report(sig, what string, replay interface{}) {
 		}
 	}
 	c.replayN++
-	dir := filepath.Join(verifHome(), "replays")
+	dir := filepath.Join(outDir(), "replays")
 	os.MkdirAll(dir, 0o755)
 	path := filepath.Join(dir, fmt.Sprintf("%s-seed%d-%d.json", c.Prop, c.Seed, c.replayN))
 	b, _ := json.MarshalIndent(map[string]interface{}{"property": c.Prop, "signature": sig, "what": what, "seed": c.Seed,
@@ -324,7 +333,7 @@ func (c *Ctx) Finish(rule string, minNontrivial int) {
 	nviol := len(c.violations)
 	incon := append([]string(nil), c.incon...)
 	c.mu.Unlock()
-	dir := filepath.Join(verifHome(), "evidence")
+	dir := filepath.Join(outDir(), "evidence")
 	os.MkdirAll(dir, 0o755)
 	b, _ := json.MarshalIndent(ev, "", " ")
 	if err := os.WriteFile(filepath.Join(dir, c.Prop+".json"), append(b, '\n'), 0o644); err != nil {
@@ -462,7 +471,7 @@ func truncate(s string, n int) string {
 // CrashWitness stores the workspace and the journal tail of a server that died during a check whose
 // property is not about crashes, so that C01 (and a human) can reproduce it. Returns the path.
 func (c *Ctx) CrashWitness(srv *Server, files map[string]string) string {
-	dir := filepath.Join(verifHome(), "replays")
+	dir := filepath.Join(outDir(), "replays")
 	os.MkdirAll(dir, 0o755)
 	ci := srv.Crash()
 	tail := ""
